@@ -343,6 +343,39 @@ static std::string respond(Toks& k)
            << " msgs=" << canon_msgs(msgs.str());
         return ss.str();
     }
+    if (cmd == "cmdline") {
+        auto n = p_int(k);
+        std::vector<std::string> args;
+        args.push_back("patch");
+        for (int64_t i = 0; i < n; ++i) args.push_back(p_bytes(k));
+        bool posixly = p_bool(k);
+        const std::string& qs = k.next();
+        if (posixly) setenv("POSIXLY_CORRECT", "1", 1); else unsetenv("POSIXLY_CORRECT");
+        if (qs == "-") unsetenv("QUOTING_STYLE");
+        else { Toks k2; k2.t.push_back(qs); auto v = p_bytes(k2); setenv("QUOTING_STYLE", v.c_str(), 1); }
+        std::vector<const char*> argv;
+        for (const auto& a : args) argv.push_back(a.c_str());
+        argv.push_back(nullptr);
+        OptionHandler handler;
+        CmdLineParser parser(static_cast<int>(args.size()), argv.data());
+        parser.parse(handler);
+        handler.apply_defaults();
+        const Options& o = handler.options();
+        auto ob = [](Options::OptionalBool b) { return b == Options::OptionalBool::Unset ? "unset" : b == Options::OptionalBool::Yes ? "yes" : "no"; };
+        const char* nl = o.newline_output == Options::NewlineOutput::Native ? "native" : o.newline_output == Options::NewlineOutput::LF ? "lf" : o.newline_output == Options::NewlineOutput::CRLF ? "crlf" : "keep";
+        const char* rf = o.reject_format == Options::RejectFormat::Context ? "context" : o.reject_format == Options::RejectFormat::Unified ? "unified" : "default";
+        const char* ro = o.read_only_handling == Options::ReadOnlyHandling::Warn ? "warn" : o.read_only_handling == Options::ReadOnlyHandling::Ignore ? "ignore" : "fail";
+        const char* qst = o.quoting_style == Options::QuotingStyle::Unset ? "unset" : o.quoting_style == Options::QuotingStyle::Literal ? "literal" : o.quoting_style == Options::QuotingStyle::Shell ? "shell" : o.quoting_style == Options::QuotingStyle::ShellAlways ? "shell-always" : "c";
+        std::ostringstream ss;
+        ss << "ok b=" << o.save_backup << " c=" << o.interpret_as_context << " d=" << hex(o.patch_directory_path) << " D=" << hex(o.define_macro)
+           << " e=" << o.interpret_as_ed << " i=" << hex(o.patch_file_path) << " l=" << o.ignore_whitespace << " n=" << o.interpret_as_normal
+           << " N=" << o.ignore_reversed << " o=" << hex(o.out_file_path) << " p=" << o.strip_size << " F=" << o.max_fuzz << " R=" << o.reverse_patch
+           << " file=" << hex(o.file_to_patch) << " r=" << hex(o.reject_file_path) << " f=" << o.force << " t=" << o.batch << " h=" << o.show_help
+           << " v=" << o.show_version << " u=" << o.interpret_as_unified << " verbose=" << o.verbose << " dry=" << o.dry_run << " posix=" << o.posix
+           << " bim=" << ob(o.backup_if_mismatch) << " E=" << ob(o.remove_empty_files) << " nl=" << nl << " rf=" << rf << " ro=" << ro << " qs=" << qst
+           << " z=" << hex(o.backup_suffix) << " B=" << hex(o.backup_prefix);
+        return ss.str();
+    }
     if (cmd == "readlines") {
         auto bytes = p_bytes(k);
         File file = File::create_temporary_with_content(bytes);
